@@ -617,18 +617,8 @@ func (t *Template) RenderTo(w io.Writer, context map[string]interface{}) error {
 	// Ensure the context is returned to the pool
 	defer ctx.Release()
 
-	// Check if it's a RootNode that supports release
-	if rootNode, ok := t.nodes.(*RootNode); ok {
-		err := rootNode.Render(w, ctx)
-		// Don't release during rendering in case of extends nodes
-		// Only release when we're sure rendering is complete
-		if !ctx.extending {
-			defer rootNode.Release()
-		}
-		return err
-	}
-
-	// For other node types
+	// The node tree belongs to the (possibly cached) template and is rendered
+	// again by later calls, so it must not be returned to the node pool here.
 	return t.nodes.Render(w, ctx)
 }
 
